@@ -93,6 +93,12 @@ def jobs(tier, seed):
         if i == 0 and ('budget' in pr or set(pr) == {'share', 'vol'}):
           continue   # default eligibility x budget pairs on 4 geos: hours
         out.append(_mk('P2', m, pr, el, i, max_s=2500))
+    # rho_max at its documented minimum: actual correlations exceed it, so
+    # the optimistic budget no longer bounds the actual one from above
+    for i, el in enumerate(ELIGS3[:3]):
+      out.append(_mk('P1', m, ['budget'], el, 20 + i, conc=dict(rho_max=0.9)))
+    out.append(_mk('P11', m, ['budget'], ELIGS4[3], 23, conc=dict(
+        rho_max=0.9), max_s=2500))
     # symbolic constraint next to concrete values of others
     for ci, conc in enumerate(CONC_VARIANTS[1:]):
       for s in SIX:
